@@ -192,13 +192,12 @@ def gen_model(rng, size="small", feats=None):
                     # members of one stop group are only made initial stops of one vehicle
                     # (split across vehicles: see known finding C08-initial-group-split)
                     mates = [w for g in groups if ui in g for w in g if w != ui and w in free]
+                    # ... and a group is an initial stop list entry as a whole
+                    # (a group of which only some members are initial stops: known finding C08-initial-group-partial)
                     for w in mates:
-                        if p(0.6):
-                            free.remove(w)
-                            od2 = rng.choice(units[w]["orders"]) if units[w]["orders"] else units[w]["stops"]
-                            seq.extend(od2)
-                        else:
-                            free.remove(w)   # stays out of every initial list
+                        free.remove(w)
+                        od2 = rng.choice(units[w]["orders"]) if units[w]["orders"] else units[w]["stops"]
+                        seq.extend(od2)
                     od = rng.choice(units[ui]["orders"]) if units[ui]["orders"] else units[ui]["stops"]
                     # interleave: put this unit's stops at random places keeping their relative order
                     pos = sorted(rng.randrange(len(seq) + 1) for _ in od)
